@@ -1,7 +1,8 @@
 /* C02: the real work-stealing deque (src/myth_wsqueue_func.h), real spinlock and real fences, small capacity.
  * Tagged dummy descriptors; every tag may be obtained at most once, and when everybody finished
  * obtained + remaining == inserted.
- * MODE 0: owner push a, push b, pop, pop      | thief take
+ * MODE 0: owner (pre-filled a,b) pop, pop       | thief take
+ * MODE 8: owner push a, pop                    | thief take
  * MODE 1: owner push a, push b                | thief take, take
  * MODE 2: owner push a,b,c  pop pop           | thief take            (3 elements)
  * MODE 3: owner (pre-filled a) pop            | thief take | thief take
@@ -35,7 +36,9 @@ static inline void obtained(struct myth_thread *t){
 }
 void verif_init(void){
   Q.size = CAP; Q.ptr = SLOTS; Q.base = CAP / 2; Q.top = CAP / 2; Q.lock.locked = 0;
-#if MODE == 3 || MODE == 6
+#if MODE == 0
+  SLOTS[CAP/2] = &TA; SLOTS[CAP/2 + 1] = &TB; Q.top = CAP/2 + 2; inserted = 2;
+#elif MODE == 3 || MODE == 6
   SLOTS[CAP/2] = &TA; Q.top = CAP/2 + 1; inserted = 1;
 #elif MODE == 7
   SLOTS[CAP/2] = &TA; SLOTS[CAP/2 + 1] = &TB; Q.top = CAP/2 + 2; inserted = 2;
@@ -46,9 +49,13 @@ void verif_init(void){
 #endif
 }
 #if MODE == 0
-void t0(void){ myth_queue_push(&Q, &TA); myth_queue_push(&Q, &TB); obtained(myth_queue_pop(&Q)); obtained(myth_queue_pop(&Q)); }
+void t0(void){ obtained(myth_queue_pop(&Q)); obtained(myth_queue_pop(&Q)); }
 void t1(void){ obtained(myth_queue_take(&Q)); }
 #define INS 2
+#elif MODE == 8
+void t0(void){ myth_queue_push(&Q, &TA); obtained(myth_queue_pop(&Q)); }
+void t1(void){ obtained(myth_queue_take(&Q)); }
+#define INS 1
 #elif MODE == 1
 void t0(void){ myth_queue_push(&Q, &TA); myth_queue_push(&Q, &TB); }
 void t1(void){ obtained(myth_queue_take(&Q)); obtained(myth_queue_take(&Q)); }
